@@ -98,7 +98,8 @@ def qcfg():
       "QConv1D": kb("QConv1D"),
       "QConv2DTranspose": kb("QConv2DTranspose"),
       "QDepthwiseConv2D": {"depthwise_quantizer": "DW_q",
-                           "bias_quantizer": "B_dw"},
+                           "bias_quantizer": "B_dw",
+                           "activation_quantizer": "ACT_dw"},
       "QSeparableConv2D": {"depthwise_quantizer": "DW_sep",
                            "pointwise_quantizer": "PW_sep",
                            "bias_quantizer": "B_sep"},
@@ -401,7 +402,7 @@ def run(rep, repo, tier):
   expect("ct", "QConv2DTranspose", kernel_quantizer="K_QConv2DTranspose",
          activation=None)
   expect("dw", "QDepthwiseConv2D", depthwise_quantizer="DW_q",
-         bias_quantizer="B_dw", activation="quantized_relu(4)")
+         bias_quantizer="B_dw", activation="ACT_dw")
   expect("sep", "QSeparableConv2D", depthwise_quantizer="DW_sep",
          pointwise_quantizer="PW_sep", bias_quantizer="B_sep")
   expect("rnn", "QSimpleRNN", kernel_quantizer="K_rnn",
